@@ -392,6 +392,18 @@ func checkSetHistory(c SetCase) error {
 		if err := gets(p, o, model, ctx); err != nil {
 			return err
 		}
+		// the read-only methods (Get above, Vector, every scoring method, Nomenclature) must leave
+		// the receiver unchanged: only Set changes an object
+		snapshot := o.Clone()
+		if e := adapt.Safe(func() { o.Vector(); o.Scores(); o.SubScores(); o.Nomenclature() }); e != nil {
+			return fmt.Errorf("%s: %v", ctx, e)
+		}
+		if !o.Eq(snapshot) {
+			return fmt.Errorf("%s: calling Vector / the scoring methods / Nomenclature changed the object: %s -> %s", ctx, snapshot.State(), o.State())
+		}
+		if err := gets(p, o, model, ctx+", then the read-only methods"); err != nil {
+			return err
+		}
 	}
 	// history independence of ==: rebuild the same assignment another way
 	q := p.Zero()
